@@ -549,7 +549,18 @@ pub fn check_c09(case: &RawCase, rr: &RawRun, an: &Analysed, out: &mut Outcome) 
         rr.run.events.iter().any(|ev| ev.side == e && ev.key == case.probe_stream && matches!(&ev.api, Api::RecvHead { kind: "response", .. }))
     };
     let conn_done_err = rr.run.events.iter().any(|ev| ev.side == e && matches!(&ev.api, Api::ConnDone { result: Err(_) }));
-    let surfaced: Vec<u32> = rr.run.events.iter().filter(|ev| ev.side == e).filter_map(|ev| if let Api::Accepted { stream } = &ev.api { Some(*stream) } else { None }).collect();
+    // (server: streams handed to accept(); client: promised streams handed to the application as pushes)
+    let surfaced: Vec<u32> = rr
+        .run
+        .events
+        .iter()
+        .filter(|ev| ev.side == e)
+        .filter_map(|ev| match &ev.api {
+            Api::Accepted { stream } => Some(*stream),
+            Api::RecvHead { kind: "push-request", stream, .. } => Some(*stream),
+            _ => None,
+        })
+        .collect();
     let sig = |what: &str| if prop == "C13" { format!("C13/{}/{}/{}", role, inj.state, what) } else { format!("{}/{}/{}/{}/{}", prop, role, inj.item, inj.state, what) };
     for s in &inj.never_surface {
         if surfaced.contains(s) {
@@ -1083,6 +1094,152 @@ impl Engine for HttpEngine {
     }
     fn shrink_iters(&self) -> u32 {
         400
+    }
+    fn run(&self, case: &RawCase) -> Outcome {
+        let rr = run_raw(case);
+        let an = analyse_raw(case, &rr);
+        let mut out = Outcome::default();
+        common_raw_oracles(case, &rr, &an, &mut out);
+        check_c09(case, &rr, &an, &mut out);
+        out.note = format!("{} wire frames, {} API events, end={:?}, script_done={}", an.tap.frames.len(), rr.run.events.len(), rr.run.end, rr.obs.script_done);
+        out
+    }
+}
+
+// ------------------------------------------------------------ C09, client under test: server-side violations (push, responses, stream states)
+
+pub const N_ITEMS_CLIENT: usize = 30;
+
+fn push_fields(path: &str, method: &str) -> Vec<(String, String)> {
+    vec![(":method".into(), method.into()), (":scheme".into(), "https".into()), (":authority".into(), "example.com".into()), (":path".into(), path.into())]
+}
+
+/// h2 client with one request in a chosen state (+ a later probe request); the scripted server injects one item.
+pub fn gen_catalogue_client(tapes: &[Vec<u32>]) -> RawCase {
+    let mut t = Tape::new(&tapes[0]);
+    let mut cfg = plain_cfg();
+    let k = t.below(N_ITEMS_CLIENT);
+    if k == 3 {
+        cfg.enable_push = Some(false);
+    }
+    if t.chance(1, 4) {
+        cfg.header_table = Some(*t.pick(&[0u32, 100, 4096]));
+    }
+    cfg.reset_dur_zero = t.chance(1, 3);
+    // state of the client's request (stream 1) when the item arrives
+    let state = *t.pick(&["half-closed-local", "open", "answered-open", "closed", "promised", "pushed-open"]);
+    let mut r1 = default_req(1);
+    if state == "open" {
+        r1.method = "POST".into();
+        r1.req.eos_on_head = false;
+        r1.req.chunks = vec![Chunk { len: 10, reserve: false, cuts: vec![], delay: 400, hold: 0 }];
+    }
+    let mut r2 = default_req(2);
+    r2.delay = 120;
+    let reqs = vec![r1, r2];
+    let mut script: Vec<PStep> = vec![PStep::Barrier, PStep::WaitStreams(1)];
+    let ok200 = |es: bool| PStep::Respond { nth: 0, fields: vec![(":status".into(), "200".into())], end_stream: es, splits: vec![] };
+    match state {
+        "answered-open" => script.push(ok200(false)),
+        "closed" => {
+            script.push(ok200(false));
+            script.push(PStep::RespondData { nth: 0, len: 5, pad: None, end_stream: true });
+            script.push(PStep::WaitEnd(1));
+        }
+        "promised" => script.push(PStep::PushPromise { stream: 1, promised: 2, fields: push_fields("/p/2", "GET"), splits: vec![], pad: None }),
+        "pushed-open" => {
+            script.push(PStep::PushPromise { stream: 1, promised: 2, fields: push_fields("/p/2", "GET"), splits: vec![], pad: None });
+            script.push(PStep::Headers { stream: 2, fields: vec![(":status".into(), "200".into())], end_stream: false, splits: vec![], pad: None, prio: None, enc: 0 });
+        }
+        _ => {}
+    }
+    script.push(PStep::Barrier);
+    script.push(PStep::Mark("inject".into()));
+    let has_push = matches!(state, "promised" | "pushed-open");
+    let next_even: u32 = if has_push { 4 } else { 2 };
+    let hdr_status = vec![0x88u8]; // :status 200
+    let pp = |stream: u32, promised: u32, fields: Vec<(String, String)>| PStep::PushPromise { stream, promised, fields, splits: vec![], pad: None };
+    let mk = |item: &str, class: Class, stream: u32, basis: &str, never: Vec<u32>| Inject { item: item.into(), state: state.into(), class, stream, basis: basis.into(), never_surface: never, must_deliver: vec![], must_deliver_streams: vec![], no_head: vec![], no_clean_end: vec![], prop: "C09".into(), wire_optional: false };
+    let parent_open = state != "closed";
+    let mut item: Option<(Vec<PStep>, Inject)> = None;
+    for round in 0..40 {
+        let k = if round == 0 { k } else { t.below(N_ITEMS_CLIENT) };
+        let it: Option<(Vec<PStep>, Inject)> = match k {
+            // ---- PUSH_PROMISE misuse (§6.6, §8.4)
+            0 if has_push => Some((vec![pp(2, 4, push_fields("/p/4", "GET"))], mk("push-promise-on-pushed-stream", Class::Conn, 0, "§6.6 PUSH_PROMISE MUST only be sent on a peer-initiated stream (here: a stream the client opened)", vec![4]))),
+            1 if parent_open => Some((vec![pp(1, next_even + 3, push_fields("/p/odd", "GET"))], mk("push-promise-odd-promised-id", Class::Conn, 0, "§5.1.1 streams initiated by a server MUST use even identifiers", vec![next_even + 3]))),
+            2 if parent_open => Some((vec![pp(1, next_even + 4, push_fields("/p/a", "GET")), pp(1, next_even, push_fields("/p/b", "GET"))], mk("push-promise-id-not-increasing", Class::Conn, 0, "§5.1.1 identifiers MUST be numerically greater than all streams the endpoint has opened or reserved", vec![next_even]))),
+            3 if cfg.enable_push == Some(false) && parent_open && !has_push => Some((vec![pp(1, 2, push_fields("/p/2", "GET"))], mk("push-promise-although-disabled", Class::Conn, 0, "§6.6 / §8.4 PUSH_PROMISE MUST NOT be sent if SETTINGS_ENABLE_PUSH of the peer is 0: connection error PROTOCOL_ERROR", vec![2]))),
+            4 => Some((vec![pp(101, next_even, push_fields("/p/idle", "GET"))], mk("push-promise-on-idle-stream", Class::Conn, 0, "§6.6 the parent stream must be open or half-closed (remote) from the sender's view; idle is a connection error", vec![next_even]))),
+            5 if !has_push => Some((vec![PStep::Headers { stream: 2, fields: vec![(":status".into(), "200".into())], end_stream: false, splits: vec![], pad: None, prio: None, enc: 0 }], mk("headers-on-unpromised-server-stream", Class::Conn, 0, "§8.4 / §5.1 a server cannot open a stream with HEADERS: only promised streams exist", vec![2]))),
+            6 if state == "promised" => Some((vec![fr(Frame::Data { stream: 2, end_stream: false, pad: None, data: vec![1, 2, 3] })], mk("data-on-reserved-stream", Class::Conn, 0, "§5.1 reserved (remote): any frame other than HEADERS, RST_STREAM or PRIORITY is a connection error", vec![]))),
+            7 if state == "promised" => Some((vec![fr(Frame::WinUp { stream: 2, inc: 10, inc_r: false })], mk("window-update-on-reserved-remote-stream", Class::Conn, 0, "§5.1 reserved (remote)", vec![]))),
+            8 if state == "promised" => Some((vec![fr(Frame::Rst { stream: 2, code: 8 })], mk("rst-on-promised-stream", Class::Legal, 2, "§5.1 reserved (remote): the server may cancel its promise with RST_STREAM", vec![]))),
+            9 if parent_open && !has_push => Some((vec![pp(1, 2, push_fields("/p/unsafe", "POST"))], mk("pushed-request-unsafe-method", Class::Stream, 2, "§8.4.1 promised requests MUST be safe and cacheable: stream error on the promised stream", vec![2]))),
+            10 if parent_open => Some((vec![PStep::PushPromise { stream: 1, promised: next_even, fields: push_fields("/p/padded", "GET"), splits: vec![3, 9], pad: Some(t.below(200) as u8) }], mk("padded-fragmented-push-promise", Class::Legal, 0, "§6.6 padding and CONTINUATION are allowed on PUSH_PROMISE", vec![]))),
+            11 if parent_open => Some((vec![rawf(wire::T_PUSH, 0x0, 1, [&next_even.to_be_bytes()[..], &[0x82u8][..]].concat()), rawf(wire::T_CONT, 0x4, 3, vec![0x84])], mk("continuation-of-push-promise-on-other-stream", Class::Conn, 0, "§6.10 CONTINUATION must follow on the same stream", vec![next_even]))),
+            12 if parent_open => Some((vec![rawf(wire::T_PUSH, 0x4, 1, vec![0, 0, 0])], mk("push-promise-too-short", Class::Conn, 0, "§4.2 / §6.6 frame too small for the promised stream id", vec![]))),
+            // ---- responses (§8.1, §5.1)
+            13 if state == "half-closed-local" || state == "open" => Some((vec![PStep::RespondData { nth: 0, len: 3, pad: None, end_stream: false }], mk("data-before-response-headers", Class::Stream, 1, "§8.1 a response starts with HEADERS; DATA first is malformed (at least a stream error)", vec![]))),
+            14 => Some((vec![PStep::Headers { stream: 101, fields: vec![(":status".into(), "200".into())], end_stream: true, splits: vec![], pad: None, prio: None, enc: 0 }], mk("response-on-idle-stream", Class::Conn, 0, "§5.1 idle: HEADERS on a stream the client never opened (odd id, higher than any it used)", vec![]))),
+            15 if state == "answered-open" => Some((vec![ok200(false)], mk("second-response-head-without-end-stream", Class::Stream, 1, "§8.1 a HEADERS frame after the response head is a trailer section and MUST carry END_STREAM", vec![]))),
+            16 if state == "closed" => Some((vec![PStep::RespondData { nth: 0, len: 2, pad: None, end_stream: false }], mk("data-on-closed-stream", Class::Stream, 1, "§5.1 closed: stream error STREAM_CLOSED (or connection error)", vec![]))),
+            17 if state == "closed" => Some((vec![fr(Frame::WinUp { stream: 1, inc: 5, inc_r: false }), fr(Frame::Rst { stream: 1, code: 0 })], mk("window-update-and-rst-on-closed-stream", Class::Legal, 1, "§5.1 closed: WINDOW_UPDATE and RST_STREAM may arrive for a short period", vec![]))),
+            // ---- role-independent framing rows (as for the server)
+            18 => Some((vec![rawf(wire::T_DATA, 0, 0, vec![1])], mk("data-on-stream-0", Class::Conn, 0, "§6.1", vec![]))),
+            19 => Some((vec![rawf(wire::T_PING, 0, 0, vec![0; 7])], mk("ping-len-7", Class::Conn, 0, "§6.7", vec![]))),
+            20 => Some((vec![rawf(wire::T_SETTINGS, 0, 0, vec![0, 2, 0, 0, 0, 1])], mk("settings-enable-push-1-from-server", Class::Conn, 0, "§6.5.2 a client MUST treat ENABLE_PUSH other than 0 from a server as a connection error", vec![]))),
+            21 => Some((vec![rawf(wire::T_GOAWAY, 0, 1, vec![0; 8])], mk("goaway-on-stream-1", Class::Conn, 0, "§6.8", vec![]))),
+            22 => Some((vec![rawf(wire::T_WINUP, 0, 0, vec![0, 0, 0, 0])], mk("window-update-0-connection", Class::Conn, 0, "§6.9", vec![]))),
+            23 => Some((vec![rawf(wire::T_HEADERS, 0x5, 1, vec![0x80])], mk("response-hpack-index-0", Class::Conn, 0, "§4.3 COMPRESSION_ERROR", vec![]))),
+            24 => Some((vec![rawf(wire::T_CONT, 0x4, 1, hdr_status.clone())], mk("continuation-without-block", Class::Conn, 0, "§6.10", vec![]))),
+            25 => Some((vec![fr(Frame::Settings { ack: true, params: vec![] })], mk("stray-settings-ack", Class::Conn, 0, "property C14", vec![]))),
+            26 => Some((vec![rawf(0x0b + t.below(200) as u8, t.below(256) as u8, 0, t.bytes(9)), rawf(0x0b + t.below(200) as u8, 0, 1, t.bytes(4))], mk("unknown-frame-types", Class::Legal, 0, "§4.1 unknown frame types MUST be ignored", vec![]))),
+            27 => Some((vec![fr(Frame::Priority { stream: 1, prio: Prio { exclusive: false, dep: 0, weight: 9 } }), fr(Frame::Priority { stream: 102, prio: Prio { exclusive: true, dep: 1, weight: 1 } })], mk("priority-frames", Class::Legal, 0, "§6.3 PRIORITY in any state", vec![]))),
+            28 => Some((vec![fr(Frame::Settings { ack: false, params: vec![(0x0a0a, 7), (4, 70000), (3, 0), (3, 100)] })], mk("settings-unknown-and-repeated", Class::Legal, 0, "§6.5", vec![]))),
+            29 if state == "half-closed-local" => Some((vec![rawf(wire::T_HEADERS, 0x8 | 0x4, 1, vec![200, 0x88])], mk("response-headers-pad-ge-length", Class::Conn, 0, "§6.2 padding exceeding the payload", vec![]))),
+            _ => None,
+        };
+        if let Some(x) = it {
+            item = Some(x);
+            break;
+        }
+    }
+    let (steps, inj) = item.unwrap_or_else(|| (vec![rawf(wire::T_DATA, 0, 0, vec![1])], mk("data-on-stream-0", Class::Conn, 0, "§6.1", vec![])));
+    script.extend(steps);
+    script.push(PStep::Mark("after".into()));
+    let expect_alive = inj.class != Class::Conn;
+    if expect_alive {
+        script.push(PStep::Barrier);
+        script.push(PStep::WaitStreams(2));
+        script.push(PStep::Respond { nth: 1, fields: vec![(":status".into(), "200".into())], end_stream: true, splits: vec![] });
+        script.push(PStep::Barrier);
+    } else {
+        script.push(PStep::Yield(30));
+    }
+    let spec = RawSpec { peer_settings: vec![], script, grant: Grant::Eager, close_at_end: true };
+    let base = base_case(&mut t, tapes, cfg, reqs);
+    RawCase { h2_side: Side::Client, base, spec, inject: Some(inj), probe_stream: 2, e_out_cap: None }
+}
+
+pub struct CatalogueClientEngine;
+
+impl Engine for CatalogueClientEngine {
+    type Case = RawCase;
+    fn name(&self) -> &'static str {
+        "raw-catalogue-client"
+    }
+    fn tape_lens(&self) -> Vec<usize> {
+        vec![120, 301, 242]
+    }
+    fn gen(&self, tapes: &[Vec<u32>]) -> RawCase {
+        gen_catalogue_client(tapes)
+    }
+    fn rule(&self) -> String {
+        format!("h2 client with one request driven into a state (awaiting the response with or without its own body finished, answered and open, closed, with a promised stream reserved or a pushed response open) receives one of {} catalogue rows from a scripted server: PUSH_PROMISE misuse (on a pushed stream, odd / non-increasing promised id, although disabled, on an idle stream, too short, continued on another stream, unsafe method), frames on reserved streams, responses out of place (DATA first, on idle streams, second head, on closed streams), role-independent framing / SETTINGS / HPACK rows and legal-but-unusual traffic; generated chunking and schedule; oracle = required class of reaction per row, forbidden streams never surface as pushes, and a later request of the client is still answered when the connection must survive; non-trivial = the injection was delivered", N_ITEMS_CLIENT)
+    }
+    fn shrink_iters(&self) -> u32 {
+        300
     }
     fn run(&self, case: &RawCase) -> Outcome {
         let rr = run_raw(case);
